@@ -28,6 +28,7 @@ import HotXL.Lemmas.RoundRoman
 import HotXL.Lemmas.RoundRomanA
 import HotXL.Lemmas.RoundRomanB
 import HotXL.Lemmas.RoundRomanC
+import HotXL.Lemmas.RomanFloat
 
 namespace HotXL.Props.C17
 open HotXL HotXL.Ops HotXL.Fn HotXL.Fn.Round HotXL.Lemmas.Round
@@ -225,6 +226,63 @@ theorem arabic_roman (n : Int) (h1 : 1 ≤ n) (h2 : n ≤ 3999) :
 
 example : (ROMAN [.num (.int 1994)] >>= fun t => ARABIC [t]) = .ok (.num (.int 1994)) :=
   arabic_roman 1994 (by decide) (by decide)
+
+/-! ### a whole number that arrives as a float (`ROMAN(1994.0)`)
+
+  For a float `number` the code runs the same greedy loop with `int(number / arabic)` on floats;
+  the model runs it on the exact rational (`romanLoopRat`).  On a whole number both loops take the
+  same steps. -/
+
+/-- the float loop of ROMAN on a natural number is the integer loop, for every table whose keys
+    are positive (truncation of the exact quotient `n / a` is the floor division `n // a`, and the
+    remainder `n - a * (n // a)` stays a natural number) -/
+theorem romanLoopRat_natCast (tbl : List (Nat × List Char)) (h : ∀ p ∈ tbl, 0 < p.1) (n : Nat) :
+    romanLoopRat tbl (n : Rat) = romanLoop tbl n :=
+  Lemmas.Round.romanLoopRat_natCast tbl h n
+
+/-- every key of the table `numerals(form + 1)` is positive for the five forms 0..4 (so
+    `number / arabic` never divides by zero) -/
+theorem roman_numerals_pos (f : Nat) (hf : f ≤ 4) : ∀ p ∈ numerals (some (f + 1)), 0 < p.1 :=
+  numerals_pos f hf
+
+/-- for every n in 1..3999 and every form 0..4, ROMAN of the FLOAT n.0 is ROMAN of the int n
+    (floats are exact rationals in the model: float rounding of `number / arabic` is outside it,
+    see the header of Model/Fn/Round.lean) -/
+theorem roman_float_whole (n form : Int) (h1 : 1 ≤ n) (h2 : n ≤ 3999) (hf0 : 0 ≤ form) (hf4 : form ≤ 4) :
+    ROMAN [.num (.flt (n : Rat)), .num (.int form)] = ROMAN [.num (.int n), .num (.int form)] := by
+  have a1 : (0 : Rat) < (n : Rat) := by exact_mod_cast (show (0 : Int) < n by omega)
+  have a2 : (n : Rat) < 4000 := by exact_mod_cast (show n < 4000 by omega)
+  rw [roman_flt (n : Rat) form a1 a2 hf0 hf4, roman_int n form h1 h2 hf0 hf4]
+  obtain ⟨m, rfl⟩ := Int.eq_ofNat_of_zero_le (show 0 ≤ n by omega)
+  obtain ⟨f, rfl⟩ := Int.eq_ofNat_of_zero_le hf0
+  have hf : ((f : Int) + 1).toNat = f + 1 := by omega
+  rw [hf, Int.toNat_natCast, Int.cast_natCast, romanLoopRat_natCast _ (numerals_pos f (by omega)) m]
+
+/-- the same with the default form: ROMAN(n.0) = ROMAN(n) -/
+theorem roman_float_whole_default (n : Int) (h1 : 1 ≤ n) (h2 : n ≤ 3999) :
+    ROMAN [.num (.flt (n : Rat))] = ROMAN [.num (.int n)] := by
+  have a1 : (0 : Rat) < (n : Rat) := by exact_mod_cast (show (0 : Int) < n by omega)
+  have a2 : (n : Rat) < 4000 := by exact_mod_cast (show n < 4000 by omega)
+  rw [roman_flt_default (n : Rat) a1 a2, roman_int_default n h1 h2]
+  obtain ⟨m, rfl⟩ := Int.eq_ofNat_of_zero_le (show 0 ≤ n by omega)
+  rw [Int.toNat_natCast, Int.cast_natCast, romanLoopRat_natCast _ (numerals_pos 0 (by omega)) m]
+
+/-- for every n in 1..3999 and every form 0..4, ROMAN(n.0, form) is a numeral that denotes n -/
+theorem roman_float_denotes (n form : Int) (h1 : 1 ≤ n) (h2 : n ≤ 3999) (hf0 : 0 ≤ form) (hf4 : form ≤ 4) :
+    ∃ s : List Char, ROMAN [.num (.flt (n : Rat)), .num (.int form)] = .ok (.str s) ∧ denote s = n := by
+  rw [roman_float_whole n form h1 h2 hf0 hf4]
+  exact roman_denotes n form h1 h2 hf0 hf4
+
+/-- ARABIC(ROMAN(n.0)) = n for every n in 1..3999 (classic form) -/
+theorem arabic_roman_float (n : Int) (h1 : 1 ≤ n) (h2 : n ≤ 3999) :
+    (ROMAN [.num (.flt (n : Rat))] >>= fun t => ARABIC [t]) = .ok (.num (.int n)) := by
+  rw [roman_float_whole_default n h1 h2]
+  exact arabic_roman n h1 h2
+
+example : isStr (ROMAN [.num (.flt 1994), .num (.int 0)]) "MCMXCIV" = true := by decide +kernel
+example : ROMAN [.num (.flt ((1994 : Int) : Rat)), .num (.int 0)] = ROMAN [.num (.int 1994), .num (.int 0)] :=
+  roman_float_whole 1994 0 (by decide) (by decide) (by decide) (by decide)
+example := roman_float_denotes 1994 0 (by decide) (by decide) (by decide) (by decide)
 
 /-- IMREAL / IMAGINARY recover the integer parts given to COMPLEX (all integers, either sign) -/
 theorem complex_parts (a b : Int) :
